@@ -109,6 +109,12 @@ def _m_split_mig():
     return dadi.Numerics.make_extrap_func(dadi.Demographics2D.split_mig)
 
 
+@model('growth_raw')
+def _m_growth_raw():
+    import dadi
+    return dadi.Demographics1D.growth
+
+
 @model('two_epoch_raw')
 def _m_two_epoch_raw():
     import dadi
@@ -289,6 +295,13 @@ def _load():
     reg('project_params_down', Inference._project_params_down, group='opthelp')
     reg('project_params_up', Inference._project_params_up, group='opthelp')
     reg('perturb_params', Misc.perturb_params, seed_rng=4242, group='opthelp')
+    # the objective every optimiser wrapper evaluates (touches Inference._counter / _theta_store)
+    reg('object_func', lambda params, data, f, pts, **kw: Inference._object_func(params, data, f, pts, **kw), group='opthelp')
+    reg('object_func_log', lambda lp, data, f, pts, **kw: Inference._object_func_log(lp, data, f, pts, **kw), group='opthelp')
+    reg('ensure_1arg_func', lambda v, t: Misc.ensure_1arg_func(v)(t), group='opthelp')
+    reg('make_extrap_log_call', lambda f, params, ns, pts: Numerics.make_extrap_log_func(f)(params, ns, pts), group='numerics')
+    reg('phi_1D_X', PhiManip.phi_1D_X, group='phi')
+    reg('Inference.ll_dict', lambda m, d: {'ll': Inference.ll(m, d), 'llm': Inference.ll_multinom(m, d)}, group='likelihood')
     # ---- godambe (C19 ops)
     reg('G.get_hess', lambda f, p0, eps, args=(): Godambe.get_hess(f, p0, eps, args), group='godambe')
     reg('G.get_grad', lambda f, p0, eps, args=(): Godambe.get_grad(f, p0, eps, args), group='godambe')
